@@ -45,6 +45,10 @@ Bind(nm, val) == [sp |-> <<>>, lo |-> nm, val |-> val]
 NSVal(ids) == [t |-> "ns", v |-> ids]     \* inside environments node-sets are id sequences
 Env1(x) == [ns |-> <<>>, vars |-> <<Bind(<<"x">>, x)>>, funcs |-> <<>>]
 Env2(x, y) == [ns |-> <<>>, vars |-> <<Bind(<<"x">>, x), Bind(<<"y">>, y)>>, funcs |-> <<>>]
+\* $y holds the nodes with the same ids in ANOTHER tree of the same document (a node-set selected from a second document of
+\* the same shape): its nodes have the same string-values, so every comparison has the same value; the harness binds the
+\* nodes of a twin tree, whose Pos() numbers coincide with those of the queried tree
+Env2F(x, y) == [ns |-> <<>>, vars |-> <<Bind(<<"x">>, x), [sp |-> <<>>, lo |-> <<"y">>, val |-> y, foreign |-> TRUE]>>, funcs |-> <<>>]
 Env3(x, y, z) == [ns |-> <<>>, vars |-> <<Bind(<<"x">>, x), Bind(<<"y">>, y), Bind(<<"z">>, z)>>, funcs |-> <<>>]
 F1(nm, x) == Call(nm, <<x>>)
 F2(nm, x, y) == Call(nm, <<x, y>>)
@@ -149,6 +153,7 @@ C05Laws == (Ready /\ Family = "C05") =>
 C05Cases == LET A == AllOps[a] B == AllOps[b] env == Env2(A.val, B.val) IN
   [i \in 1..6 |-> Obj(env, Bin(CmpOps[i], XVar, YVar))]
   \o (IF A.e.op # "none" /\ B.e.op # "none" THEN [i \in 1..6 |-> Obj(env, Bin(CmpOps[i], A.e, B.e))] ELSE <<>>)
+  \o (IF B.val.t = "ns" THEN [i \in 1..6 |-> Obj(Env2F(A.val, B.val), Bin(CmpOps[i], XVar, YVar))] ELSE <<>>)
 \* != is not the negation of = for node-sets: there is a witness pair
 ASSUME Family = "C05" => \E i \in 1..Len(NsOps), j \in 1..Len(NsOps) :
           LET env == Env2(NsOps[i].val, NsOps[j].val) IN
